@@ -36,13 +36,17 @@ func verifSlotOf(x any) *internal.Slot {
 		return &v.file.slot
 	case *AsyncAdapter:
 		return &v.slot
+	case *listener:
+		return &v.slot
+	case *packetConn:
+		return &v.slot
 	case *Timer:
 		return v.it.VerifSlot()
 	}
 	return nil
 }
 
-// VerifSlotEvents returns the interest bits (Slot.Events) of a file, conn, adapter or timer.
+// VerifSlotEvents returns the interest bits (Slot.Events) of a file, conn, adapter, listener, packet conn or timer.
 func VerifSlotEvents(x any) uint32 {
 	if s := verifSlotOf(x); s != nil {
 		return uint32(s.Events)
